@@ -115,11 +115,12 @@ Section Strategies.
     end.
 
   (* Chain.ClientIP over the results of its members, evaluated lazily left to right.
-     errs = errors.Join(errs, err); flattened to the leaf errors.  An (ip, nil)
-     return with ip == nil (NoResult) counts as success, as in the code. *)
+     errs = errors.Join(errs, err); flattened to the leaf errors; errs == nil after the
+     loop (no member ran) is errEmptyChain.  An (ip, nil) return with ip == nil
+     (NoResult) would count as success, as in the code; no resolver returns it. *)
   Fixpoint chain_go (subs : list (unit -> result A)) (errs : option (list errk)) : result A :=
     match subs with
-    | [] => match errs with Some es => Err es | None => NoResult end
+    | [] => match errs with Some es => Err es | None => Err [EChainEmpty] end
     | sub :: rest =>
       match sub tt with
       | Err e => chain_go rest (Some (match errs with Some es => es ++ e | None => e end))
